@@ -114,7 +114,8 @@ def evalIfText (defs : List (List Char)) (l : List Tok) : String :=
 
 def quirks (s : String) : Quirks :=
   match s.toList with
-  | [a, b, c, d] => ⟨a == '1', b == '1', c == '1', d == '1'⟩
+  | [a, b, c, d] => ⟨a == '1', b == '1', c == '1', d == '1', false⟩
+  | [a, b, c, d, e] => ⟨a == '1', b == '1', c == '1', d == '1', e == '1'⟩
   | _ => Quirks.code
 
 def step (line : String) : String :=
